@@ -9,7 +9,12 @@ wt=/tmp/confirm-$sid
 git -C /repo worktree add -q --detach "$wt" HEAD || exit 2
 trap 'git -C /repo worktree remove --force "$wt" 2>/dev/null' EXIT
 demofile=$(ls "$out"/*_test.go "$out"/*.go 2>/dev/null | head -1)
+[ -f "$out/$(basename $demorel)" ] && demofile="$out/$(basename $demorel)"   # the file demo_path.txt names, if it is there
 cp "$demofile" "$wt/$demorel"
+extra=""
+if [ -n "${ALLDEMOS:-}" ]; then   # a demonstration in several files of one package
+  for f in "$out"/*_test.go; do [ "$f" = "$demofile" ] || { cp "$f" "$wt/$(dirname $demorel)/"; extra="$extra $(dirname $demorel)/$(basename $f)"; }; done
+fi
 cd "$wt/$mod" || exit 2
 base=$(go test -count=1 -run "$re" ./$pkg 2>&1 | tail -3); base_rc=$?
 echo "demo WITHOUT change: $base"
@@ -17,13 +22,14 @@ go test -count=1 -run "$re" ./$pkg >/dev/null 2>&1; rc_without=$?
 git -C "$wt" apply "$out/patch.diff" || { echo "patch does not apply to HEAD"; exit 3; }
 go test -count=1 -run "$re" ./$pkg >/tmp/confirm-$sid.log 2>&1; rc_with=$?
 echo "demo WITH change: rc=$rc_with"; tail -5 /tmp/confirm-$sid.log
-rm -f "$wt/$demorel"
+rm -f "$wt/$demorel"; for f in $extra; do rm -f "$wt/$f"; done
 (go build ./... && go test -count=1 ./... ) >/tmp/confirm-$sid.suite 2>&1; rc_suite=$?
 echo "suite WITH change: rc=$rc_suite"; grep -v 'no test files' /tmp/confirm-$sid.suite | tail -8
 if [ $rc_without -eq 0 ] && [ $rc_with -ne 0 ] && [ $rc_suite -eq 0 ]; then
   mkdir -p /verif/seeded/$sid
   cp "$out/patch.diff" /verif/seeded/$sid/patch.diff
   cp "$demofile" /verif/seeded/$sid/
+  for f in $extra; do cp "$out/$(basename $f)" /verif/seeded/$sid/; done
   [ -f "$out/notes.md" ] && cp "$out/notes.md" /verif/seeded/$sid/notes.md
   cat > /verif/seeded/$sid/meta.json <<EOM
 {"id": "$sid", "property": "$prop", "base_commit": "$(git -C /repo log --format=%h -1)",
